@@ -309,6 +309,25 @@ Definition step_map {S M M'} (g : M -> M') (st : step N S M err) : step N S M' e
   | Frame m s' rest => Frame (g m) s' rest
   end.
 
+(* The layer above as an input of the receive loops.  MrpConnection and CompanionConnection call
+   their listener inside the per-frame try/except: a listener that raises is logged and the loop
+   goes on, so it changes neither the parser state nor the rest of the buffer.  What the layer
+   above saw of one frame: the message it was handed and whether it returned normally, or nothing
+   (the frame could not be decrypted / decoded / has an unknown type).
+   (pb_ok of mrp_p1 is the decode step alone here; DataStreamChannel has no such barrier: a
+   raising listener is ds_handler_ok = false, the exception leaves data_received - EHandler.) *)
+Inductive mrp_seen := MHanded (data : bytes) (returned : bool) | MNotHanded.
+Definition mrp_consume (consumer : bytes -> bool) (m : mrp_msg) : mrp_seen :=
+  match m with MDelivered d => MHanded d (consumer d) | MSwallowed _ => MNotHanded end.
+Definition mrpc_p1 dec pb_ok (consumer : bytes -> bool) (s : mrp_state) (buf : bytes) :=
+  step_map (mrp_consume consumer) (mrp_p1 dec pb_ok s buf).
+
+Inductive comp_seen := CHanded (ftype : N) (payload : bytes) (returned : bool) | CNotHanded.
+Definition comp_consume (consumer : N -> bytes -> bool) (m : comp_msg) : comp_seen :=
+  match m with CFrame t p => CHanded t p (consumer t p) | CSwallowed _ _ => CNotHanded end.
+Definition compc_p1 dec known_type (consumer : N -> bytes -> bool) (s : comp_state) (buf : bytes) :=
+  step_map (comp_consume consumer) (comp_p1 dec known_type s buf).
+
 (* BasicHttpServer: what handler.handle_request(request) does, and what the server then writes *)
 Inductive hout := HResponse | HRaises | HNothing.   (* returns a response / raises / returns None *)
 Inductive answer := AHandler | A500 | A404.         (* the handler's response / 500 / 404 *)
